@@ -2231,6 +2231,7 @@ func (m *Msg) WriteTo(writer io.Writer) (int64, error) {
 
 	if m.hasSMIME() {
 		if err := m.signMessage(); err != nil {
+			m.headerCount = 0
 			return 0, err
 		}
 	}
